@@ -781,6 +781,84 @@ fn debug_fields(d: &str) -> Vec<String> {
 		.collect()
 }
 
+// ---------------------------------------------------------------- class 12 Unicode traps, class 13 numbers as text
+fn unicode_and_numbers(out: &mut Out, rt: &tokio::runtime::Runtime, dir: &Path, args: &Args) {
+	use crate::c19_gen::{NUM_BORDERS, UNICODE_TRAPS};
+	let mut traps: Vec<&str> = UNICODE_TRAPS.to_vec();
+	traps.extend(["\u{a0}", "\u{2003}", "\u{3000}", "\u{85}", "\u{2028}", "\u{17f}", "\u{131}", "\u{3c2}", "\u{1c4}", "é", "日", "🗺", "\u{661}", "\u{ff11}", "\u{2460}", "\u{b2}", "\u{aa}", "\u{1d7d9}"]);
+	for t in &traps {
+		// in every syntactic position, before and after every delimiter the parser looks for
+		for text in [
+			format!("{t}"), format!("a{t}"), format!("{t}a"), format!("a {t}=1"), format!("a k{t}=1"), format!("a {t}k=1"), format!("a k={t}"), format!("a k=x{t}"), format!("a k={t}x"), format!("a k=[{t}]"),
+			format!("a k=[1,{t}]"), format!("a k=[1{t},2]"), format!("a k=\"{t}\""), format!("a k=\"{t}\\\"{t}\""), format!("a k=\"\\{t}\""), format!("a k=\"{t}"), format!("a k=\"x\"{t}"), format!("a{t}|b"), format!("a|{t}b"),
+			format!("a [{t}b]"), format!("a [b{t}]"), format!("a [b]{t}"), format!("a k=1{t}[b]"), format!("a k{t}=1"), format!("a k={t}1"), format!("a k=[1,{t}2]"), format!("a{t}k=1"), format!("a k=1{t}l=2"), format!("a k=1 {t}"),
+			format!("a k=\"{t}\" l=\"{t}{t}\" [b m=\"{t}\"]"),
+		] {
+			parse_case(out, &text, "unicode");
+		}
+		// the typed layer folds case and trims: the documented semantics computed with the standard library
+		for v in [format!("{t}true"), format!("true{t}"), format!("tr{t}ue"), format!("{t}"), format!("o{t}"), format!("{t}o"), format!("ye{t}"), format!("n{t}")] {
+			let core = v.trim().to_lowercase();
+			let e = if ["1", "true", "yes", "ok"].contains(&core.as_str()) { "val true" } else if ["0", "false", "no"].contains(&core.as_str()) { "val false" } else { "err" };
+			emit_get(out, "bool", &format!("a k={}", qv(&v)), Some(e.into()));
+			emit_get(out, "string", &format!("a k={}", qv(&v)), Some(format!("val {}", hs(&v))));
+			emit_get(out, "u8", &format!("a k={}", qv(&format!("1{t}"))), Some(format!("1{t}").parse::<u8>().map_or("err".into(), |x| format!("val {x}"))));
+			emit_get(out, "f32", &format!("a k={}", qv(&format!("{t}1"))), Some(format!("{t}1").parse::<f32>().map_or("err".into(), |x| format!("val {}", show_f(x as f64)))));
+		}
+		for v in [format!("{t}pbf"), format!("pbf{t}"), format!("p{t}bf"), format!("{t}"), format!(".pbf{t}."), format!("PN{t}"), format!("JPE{t}"), format!("b{t}n"), format!("{t}son")] {
+			let low = v.to_lowercase();
+			let core = low.trim_matches([' ', '.']);
+			let ok = ["avif", "bin", "geojson", "jpeg", "jpg", "json", "pbf", "png", "svg", "topojson", "webp"].contains(&core);
+			emit_build(out, rt, dir, &format!("from_debug format={}", qv(&v)), Some(if ok { "ok" } else { "err" }), "unicode-format");
+		}
+	}
+	// error paths with multi-byte text: the report of a parse error quotes the input, so every byte alignment of
+	// every length around typical report limits (1 KiB … 8 KiB) must end in an error, never in a panic
+	let chars = ["é", "日", "🗺", "\u{2126}", "\u{0130}", "e\u{0301}", "\u{feff}"];
+	let limits: &[usize] = if args.thorough() { &[64, 128, 255, 256, 512, 1000, 1024, 2000, 2048, 4000, 4096, 8192, 16384, 65536] } else { &[256, 1024, 2048, 4096, 8192] };
+	for ch in chars {
+		for lim in limits {
+			for pad in 0..ch.len().max(2) + 1 {
+				let n = lim / ch.len() + 4;
+				let body = format!("{}{}", "x".repeat(pad), ch.repeat(n));
+				for text in [
+					format!("a k=\"{body}"),                      // unterminated string
+					format!("a k=\"{body}\\q\""),                // bad escape at the end of a long multi-byte string
+					format!("a k={body}"),                        // not a bare value
+					format!("a {body}=1"),                        // not a key
+					format!("a [b [c [d k=\"{body}\" ; ]]]"),      // error behind a long line, four contexts deep
+					format!("a k=\"{body}\" l"),                  // missing '=' behind the long value
+					format!("{body}"),                            // not a name
+				] {
+					parse_case(out, &text, "error-alignment");
+				}
+			}
+		}
+	}
+	// class 13: every numeric argument with the shared border list
+	for n in NUM_BORDERS {
+		emit_get(out, "u8", &format!("a k={}", qv(n)), Some(n.parse::<u8>().map_or("err".into(), |x| format!("val {x}"))));
+		emit_get(out, "u8_req", &format!("a k={}", qv(n)), Some(n.parse::<u8>().map_or("err".into(), |x| format!("val {x}"))));
+		emit_get(out, "u32", &format!("a k={}", qv(n)), Some(n.parse::<u32>().map_or("err".into(), |x| format!("val {x}"))));
+		emit_get(out, "f32", &format!("a k={}", qv(n)), Some(n.parse::<f32>().map_or("err".into(), |x| format!("val {}", show_f(x as f64)))));
+		emit_get(out, "bool", &format!("a k={}", qv(n)), Some(match *n { "1" => "val true".into(), "0" => "val false".into(), _ => "err".into() }));
+		for k in ["min", "max"] {
+			emit_build(out, rt, dir, &format!("from_debug format=pbf | filter_zoom {k}={}", qv(n)), Some(if n.parse::<u8>().is_ok() { "ok" } else { "err" }), "num-borders");
+		}
+		for i in 0..4 {
+			let mut v = ["-10.5", "-20.25", "20.5", "50.5"];
+			v[i] = n;
+			emit_get(out, "array4", &format!("a k=[{}]", v.iter().map(|x| qv(x)).collect::<Vec<_>>().join(",")), None);
+			emit_build(out, rt, dir, &format!("from_debug format=pbf | filter_bbox bbox=[{}]", v.iter().map(|x| qv(x)).collect::<Vec<_>>().join(",")), Some(if geo_ok(&v) { "ok" } else { "err" }), "num-borders");
+		}
+		// counts written as text do not exist in VPL; a number as a name / key / string value is plain text
+		parse_case(out, &format!("a k={n}"), "num-text");
+		parse_case(out, &format!("{n}"), "num-text");
+		parse_case(out, &format!("a {n}=1"), "num-text");
+		emit_build(out, rt, dir, &format!("from_container filename={}", qv(n)), Some("ok"), "num-borders");
+	}
+}
+
 pub fn run_extra(out: &mut Out, rt: &tokio::runtime::Runtime, dir: &Path, args: &Args, sample_texts: &[String]) {
 	limits(out, rt, dir, args);
 	option_interplay(out, rt, dir);
@@ -791,5 +869,6 @@ pub fn run_extra(out: &mut Out, rt: &tokio::runtime::Runtime, dir: &Path, args: 
 	typed_values(out);
 	sequential_brackets(out, args);
 	fallbacks(out, rt, dir);
-	out.notes.push("CHECKLIST classes: 1 limits (c18x::limits, nesting 63..66 in c18), 2 callback/CSV faults (dirs_and_files), 3 CSV payload classes (never a panic), 4 option_interplay (pairwise states per operation), 5 same_twice + `C18 path` base directories, 6 order: `C18 split`/`C18 chain`, 9 freedoms (every piece at every position), 10 docs table vs model vs builds, operation_from_vpl vs parse_vpl+build_pipeline; 1b counter confusion: sequential_brackets; 11 fallbacks (parse_value alternatives, optional lists, scalar/list coercion, defaults, current-directory); typed values: `C18 get`; 7 (HTTP) and 8 (tile coordinates) do not occur in VPL texts".into());
+	unicode_and_numbers(out, rt, dir, args);
+	out.notes.push("CHECKLIST classes: 1 limits (c18x::limits, nesting 63..66 in c18), 2 callback/CSV faults (dirs_and_files), 3 CSV payload classes (never a panic), 4 option_interplay (pairwise states per operation), 5 same_twice + `C18 path` base directories, 6 order: `C18 split`/`C18 chain`, 9 freedoms (every piece at every position), 10 docs table vs model vs builds, operation_from_vpl vs parse_vpl+build_pipeline; 1b counter confusion: sequential_brackets; 11 fallbacks (parse_value alternatives, optional lists, scalar/list coercion, defaults, current-directory); typed values: `C18 get`; 12 Unicode traps: UNICODE_TRAPS (+ Unicode spaces, digits, case-mapping oddities) in every syntactic position and before/after every delimiter, through the case-folding/trimming typed layer (bool words, tile formats) judged by std's to_lowercase/trim, and error-path texts with 2/3/4-byte characters at every byte alignment around 256…8192 bytes (never a panic); 13 NUM_BORDERS through every numeric argument (u8/u32/f32/[f64;4] getters, filter_zoom min/max, each position of filter_bbox) and as plain text in name/key/value position; 7 (HTTP) and 8 (tile coordinates) do not occur in VPL texts".into());
 }
